@@ -4,6 +4,7 @@ import (
 	"verifharness/core"
 	_ "verifharness/pool"
 	_ "verifharness/timecache"
+	_ "verifharness/unit"
 	_ "verifharness/shardid"
 )
 
